@@ -81,6 +81,8 @@ impl EventSource for SocketRead<'_> {
         // after register the coroutine, it's possible that other thread run it immediately
         // and cause the process after it invalid, this is kind of user and kernel competition
         // so we need to delay the drop of the EventSource, that's why _g is here
+        #[cfg(may_verif)]
+        crate::verif::label("io.subscribe.before_store", 0);
         io_data.co.store(co);
         // till here the io may be done in other thread
 
